@@ -32,7 +32,7 @@ class H(Harness):
     def gen_cases(self, tier, rnd, n):
         out = []
         for i in range(n):
-            tb = kcommon.gen_table(rnd, 'synchronous', maxacts=2)
+            tb = kcommon.gen_table(rnd, 'synchronous', maxacts=2, unnamed_ok=True)
             script = {'random': [rnd.randrange(0, 8) / 8.0 for _ in range(400)]}
             out.append({'table': tb, 'dynamics': 'synchronous', 'seed': rnd.randrange(1 << 30), 'script': script, 'prerun': rnd.random() < 0.25})
         out += c06law.gen_absorb_cases(rnd, tier)
@@ -83,7 +83,7 @@ class H(Harness):
                             ok = False
                             break
                         if rs[pos] <= ev['p']:
-                            exp.append(['L%d' % ev['locus'], e, 'ev%d_%d' % (pi, j)])
+                            exp.append(['L%d' % ev['locus'], e, None if ev.get('unnamed') else 'ev%d_%d' % (pi, j)])
                         pos += 1
             nfixed = 0
             for (pi, j, ev) in fixed:
@@ -93,7 +93,7 @@ class H(Harness):
                         ok = False
                         break
                     if rs[pos] <= ev['p']:
-                        exp.append(['L%d' % ev['locus'], None, 'ev%d_%d' % (pi, j)])
+                        exp.append(['L%d' % ev['locus'], None, None if ev.get('unnamed') else 'ev%d_%d' % (pi, j)])
                         nfixed += 1
                     pos += 1
             if not ok or pos != len(rs):
